@@ -145,6 +145,9 @@ var c06RootVals map[string]interface{}
 
 func c06Init() {
 	c06Set = jet.NewSet(jet.NewInMemLoader(), jet.WithSafeWriter(nil))
+	// a global of the same name as the Execute variable every path starts from: the variable always shadows it,
+	// also when its value is nil
+	c06Set.AddGlobal("root", "GLOBAL-ROOT")
 	c06RootVals = c06Roots()
 }
 
@@ -191,7 +194,10 @@ func c06Replay(i int, raw json.RawMessage) Result {
 	}
 	expr := c06Expr(&v)
 	key := v.Root + ":" + expr
-	last := v.Path[len(v.Path)-1]
+	last := c06Step{T: "root"}
+	if len(v.Path) > 0 {
+		last = v.Path[len(v.Path)-1]
+	}
 	sig := map[string]interface{}{"root": v.Root, "expect": v.Outcome.Kind, "laststep": last.T, "lastname": last.N}
 	// C06: the access itself
 	out, err := c06Render("{{ "+expr+" }}", v.Root)
